@@ -1,8 +1,7 @@
 (** Model of the printers of prettyprinter.py (594-1007, 1181-1568,
     1825-1984) for the value universe of PyVal.v.  No proofs here.
-    Annotation granularity inside a string literal (highlight_escapes) is not
-    modelled: one text fragment per literal body; the emitted text and all
-    widths are the same. *)
+    The annotation granularity inside a string literal (highlight_escapes) is
+    modelled: the colour rendering is compared byte for byte (C16). *)
 From PP Require Import Doc PyStr PyVal Consts.
 
 (** syntax.Token values (tied to Gen/Tokens.v by Props/C16.v) *)
@@ -12,6 +11,7 @@ Definition T_NAME_FUNCTION : N := 4.
 Definition T_NAME_VARIABLE : N := 5.
 Definition T_LITERAL_STRING : N := 6.
 Definition T_STRING_AFFIX : N := 7.
+Definition T_STRING_ESCAPE : N := 8.
 Definition T_NUMBER_FLOAT : N := 10.
 Definition T_NUMBER_INT : N := 11.
 Definition T_OPERATOR : N := 12.
@@ -191,13 +191,83 @@ Definition build_fncall (ctx : pctx) (fndoc : doc) (argdocs : list doc) (kwargdo
         if has_comment then AlwaysBreak body else Group body
   end.
 
-(** pretty_single_line_str (1677-1700) without escape highlighting *)
+(** STR_LITERAL_ESCAPES (1659-1666) and highlight_escapes (1669-1697): the
+    escaped text is cut at every match of the six alternatives: backslash +
+    one of (backslash a b f n r t v, double quote, single quote); backslash N
+    brace ... first closing brace; backslash u + 4 hex digits; backslash U + 8
+    hex digits; backslash x + 2 hex digits; backslash + 1 to 3 octal digits
+    (the alternatives start with different characters, so their order is
+    immaterial).  Escapes are annotated STRING_ESCAPE, the runs between them
+    LITERAL_STRING, empty runs are skipped. *)
+Definition is_hex (c : N) : bool :=
+  ((48 <=? c) && (c <=? 57) || (65 <=? c) && (c <=? 70) || (97 <=? c) && (c <=? 102))%N.
+Definition is_oct (c : N) : bool := ((48 <=? c) && (c <=? 55))%N.
+Definition simple_esc (c : N) : bool :=
+  existsb (N.eqb c) [92; 97; 98; 102; 110; 114; 116; 118; 34; 39]%N.
+Fixpoint all_hex (n : nat) (s : str) : bool :=
+  match n with
+  | O => true
+  | S k => match s with c :: tl => is_hex c && all_hex k tl | [] => false end
+  end.
+(** position of the first '}' with no newline before it *)
+Fixpoint find_close (s : str) : option nat :=
+  match s with
+  | [] => None
+  | c :: tl => if (c =? 125)%N then Some O
+               else if (c =? 10)%N then None
+               else option_map S (find_close tl)
+  end.
+Definition oct_run (s : str) : nat :=
+  match s with
+  | a :: b :: c :: _ => if is_oct a then if is_oct b then if is_oct c then 3 else 2 else 1 else 0
+  | [a; b] => if is_oct a then if is_oct b then 2 else 1 else 0
+  | [a] => if is_oct a then 1 else 0
+  | [] => 0
+  end%nat.
+(** length of the escape that starts with the backslash preceding [s]; 0 = no escape here *)
+Definition esc_len (s : str) : nat :=
+  match s with
+  | [] => O
+  | c :: tl =>
+      if simple_esc c then 2%nat
+      else if (c =? 78)%N then
+        match tl with
+        | 123%N :: rest => match find_close rest with Some k => (4 + k)%nat | None => O end
+        | _ => O
+        end
+      else if (c =? 117)%N then (if all_hex 4 tl then 6%nat else O)
+      else if (c =? 85)%N then (if all_hex 8 tl then 10%nat else O)
+      else if (c =? 120)%N then (if all_hex 2 tl then 4%nat else O)
+      else match oct_run s with O => O | k => S k end
+  end.
+Definition flush_run (cur : str) : list (bool * str) :=
+  match cur with [] => [] | _ => [(false, rev cur)] end.
+Fixpoint split_escapes_aux (fuel : nat) (s : str) (cur : str) : list (bool * str) :=
+  match fuel with
+  | O => flush_run cur
+  | S f =>
+      match s with
+      | [] => flush_run cur
+      | c :: tl =>
+          if (c =? 92)%N then
+            match esc_len tl with
+            | O => split_escapes_aux f tl (c :: cur)
+            | n => flush_run cur ++ (true, firstn n s) :: split_escapes_aux f (skipn n s) []
+            end
+          else split_escapes_aux f tl (c :: cur)
+      end
+  end.
+Definition split_escapes (s : str) : list (bool * str) := split_escapes_aux (S (length s)) s [].
+
+(** pretty_single_line_str (1700-1723) *)
 Definition single_line_str (bytes : bool) (q : N) (s : str) : doc :=
   Cat [(if bytes then tok T_STRING_AFFIX (ch 98) else Text []);
        Annot (ATok T_LITERAL_STRING)
              (Cat [Text [q]; (match escape_for_quote printable bytes q s with
                               | [] => Nil
-                              | e => Cat [tok T_LITERAL_STRING e]
+                              | e => Cat (map (fun p : bool * str =>
+                                                 tok (if fst p then T_STRING_ESCAPE else T_LITERAL_STRING) (snd p))
+                                              (split_escapes e))
                               end); Text [q]])].
 
 Definition big_fuel_of (s : str) : nat := 6 * length s + 16.
